@@ -1,5 +1,6 @@
 // LD_PRELOAD shim for native replay of file-system fault plans.
 // FAULT_PLAN="rename:1,unlink:2"  -> the 1st rename and the 2nd unlink (counted after VERIF_ARMED is set) fail with EIO
+// FAULT_ERRNO=EACCES|EPERM|ENOSPC|EXDEV|EOPNOTSUPP|EIO selects the error of the failing calls (default EIO)
 // FAULT_KILL="rename:1:before|after" -> the process _exit(137)s before/after that call
 #define _GNU_SOURCE
 #include <dlfcn.h>
@@ -15,6 +16,16 @@
 static int counts[16];
 static const char *KINDS[] = {"rename", "link", "symlink", "unlink", "mkdir", "create", "copy", 0};
 
+static int fault_errno(void) {
+    const char *e = getenv("FAULT_ERRNO");
+    if (!e) return EIO;
+    if (!strcmp(e, "EACCES")) return EACCES;
+    if (!strcmp(e, "EPERM")) return EPERM;
+    if (!strcmp(e, "ENOSPC")) return ENOSPC;
+    if (!strcmp(e, "EXDEV")) return EXDEV;
+    if (!strcmp(e, "EOPNOTSUPP")) return EOPNOTSUPP;
+    return EIO;
+}
 static int kind_idx(const char *k) { for (int i = 0; KINDS[i]; i++) if (!strcmp(KINDS[i], k)) return i; return -1; }
 static int armed(void) { return getenv("VERIF_ARMED") != 0; }
 
@@ -31,7 +42,7 @@ static int pre(const char *kind) {
     char buf[256]; strncpy(buf, plan, 255); buf[255] = 0;
     for (char *tok = strtok(buf, ","); tok; tok = strtok(0, ",")) {
         char k[32]; int idx;
-        if (sscanf(tok, "%31[^:]:%d", k, &idx) == 2 && !strcmp(k, kind) && idx == n) { errno = EIO; return 1; }
+        if (sscanf(tok, "%31[^:]:%d", k, &idx) == 2 && !strcmp(k, kind) && idx == n) { errno = fault_errno(); return 1; }
     }
     return 0;
 }
